@@ -132,6 +132,12 @@ def _value_array(shape, v, dtype):
     rows, cols = shape
     ramp = (np.arange(rows * cols).reshape(rows, cols) % 7).astype(float)
     dt = np.dtype(dtype)
+    if isinstance(v, str):  # non-finite content: "nan" / "inf" (one pixel) or "mix" (first pixel nan, last pixel inf)
+        a = (3.0 + ramp * 0.25).astype(dt)
+        a.flat[0] = np.nan if v in ("nan", "mix") else np.inf
+        if v == "mix":
+            a.flat[-1] = np.inf
+        return a
     if dt.kind == "u":
         a = np.full((rows, cols), int(v), dtype=np.uint64)
         sub = ramp.astype(np.uint64) % np.uint64(3)
